@@ -166,7 +166,7 @@ func C03(rep *ev.Reporter, tier string) {
 	sals := salQuick
 	kinds := c03Kinds
 	maxCycle := uint64(6)
-	bud := NewBudget(50 * time.Second)
+	bud := NewBudget(150 * time.Second)
 	if tier == "thorough" {
 		sals = salFull
 		maxCycle = 8
